@@ -171,3 +171,316 @@ def unit_k_greedy_center(rows=False):
 
 
 UNITS = {"C01.C02.k_greedy_center.idx": unit_k_greedy_center(False), "C01.C02.k_greedy_center.rows": unit_k_greedy_center(True)}
+
+
+# ========================================================================================== _greedy_sampling (GreedySamplingX / GreedySamplingTarget)
+"""_greedy_sampling (skactiveml/pool/_greedy_sampling.py), the sequential selection shared by GreedySamplingX.query and both phases of
+GreedySamplingTarget.query:
+  requires  0 <= batch_size <= len(X_cand)
+  assumed   [A-score] the aggregated distances (np.sum / np.min along axis 1 of the gathered distance block) are numbers; rand_argmax contract
+            (selection.rand_argmax, proved); _measure_distance returns a matrix (its values are irrelevant here)
+  ensures   query_indices: batch_size pairwise distinct positions in range(len(X_cand))                                              (C01)
+            utilities[t, j] is NaN exactly for the positions picked in steps 0..t-1; pick t is maximal among the non-NaN entries of row t   (C02)
+  loop invariant: ghost mask sequence GHg(t) (positions still selectable before step t) and ghost position function POSg(t, j) (where position j
+            sits in `not_selected_candidates` before step t): not_selected_candidates enumerates GHg(k) bijectively, np.delete of the picked
+            slot shifts the later ones down by one."""
+FG = "skactiveml/pool/_greedy_sampling.py"
+GHg = z3.Function("GH_greedy", I, z3.ArraySort(I, B))
+POSg = z3.Function("POS_greedy", I, I, I)
+WITg = z3.Function("WIT_greedy", I, I, I)         # step t2, position j masked before t2 -> the earlier step that picked j
+
+
+def greedy_lib():
+    L = loops_lib()
+
+    @L.fn("_measure_distance")
+    def _md(E, st, args, kw, node):
+        """pairwise distances between the candidates and the samples `indices`: a (len(X_cand), len(indices)) matrix (values irrelevant)"""
+        ind = as_array(args[0], st)
+        Xc = as_array(kw["X_cand"], st)
+        return st.alloc(ArrData((Xc.shape[0], ind.shape[0]), fresh_sel("dist", "f", 2), "f"))
+
+    def agg(E, st, args, kw, node):
+        """[A-score] np.sum(dist, axis=1) / np.min(dist, axis=1) of a distance block: one NUMBER per row"""
+        a = as_array(args[0], st) if isinstance(args[0], Ref) else None
+        if a is None or a.ndim != 2 or kw.get("axis") != 1:
+            raise Unsupported("aggregate of something else than a distance block along axis 1")
+        E.abstracted.add("A-score: " + ast_unparse(node)[:60])
+        v = fresh_fn("agg", I, R)
+        return st.alloc(ArrData((a.shape[0],), lambda i: mk_fv(z3.BoolVal(False), v(i)), "f"))
+    L.functions["np.sum"] = agg
+    L.functions["np.min"] = agg
+    return L
+
+
+def ast_unparse(node):
+    import ast
+    return ast.unparse(node)
+
+
+def unit_greedy_sampling(start_empty):
+    """start_empty: no sample is labeled yet (selected_indices is empty at the call)"""
+    def setup(E, st):
+        N, d, c, bs, L0 = z3.Int("N"), z3.Int("d"), z3.Int("c"), z3.Int("batch_size"), z3.Int("n_selected0")
+        st.assume(N >= 1, d >= 1, c >= 0, bs >= 0, bs <= c)
+        Xc = st.alloc(ArrData((c, d), fresh_sel("X_cand", "o", 2), "o"))
+        X = st.alloc(ArrData((N, d), fresh_sel("X", "o", 2), "o"))
+        si = st.alloc(ArrData((N,), lambda i: i, "i"))
+        if start_empty:
+            sel = st.alloc(ArrData((0,), fresh_sel("selected", "i"), "i"))
+        else:
+            st.assume(L0 >= 1)
+            sel = st.alloc(ArrData((L0,), fresh_sel("selected", "i"), "i"))
+        ci = st.alloc(ArrData((c,), fresh_sel("candidate_indices", "i"), "i"))
+        rng = st.alloc(RngData(z3.Function("rng_stream", I, R), z3.Int("pos0"), z3.Int("aux0")))
+        t, t2, j, p = z3.Ints("t t2 j p")
+        inr = lambda jj: z3.And(0 <= jj, jj < c)
+        st.assume(z3.ForAll([j], GHg(0)[j] == inr(j)))
+        st.assume(z3.ForAll([j], z3.Implies(inr(j), POSg(0, j) == j)))
+
+        def q_at(s, tt):
+            return to_int(s.get(s.env["query_indices"]).sel(tt))
+
+        def inv(E, s, k, pre):
+            U = s.get(s.env["utilities"])
+            nsc = s.get(s.env["not_selected_candidates"])
+            Un, Uv = to_real(U.sel(t2, j))
+            qn, qv = to_real(U.sel(t2, q_at(s, t2)))
+            nj = to_int(nsc.sel(p))
+            return [
+                ("shapes", z3.And(to_int(U.shape[0]) == bs, to_int(U.shape[1]) == c, to_int(s.get(s.env["query_indices"]).shape[0]) == bs,
+                                  to_int(nsc.shape[0]) == c - k, to_int(s.get(s.env["candidate_indices"]).shape[0]) == c - k)),
+                ("ghost_def", z3.ForAll([t], z3.Implies(z3.And(1 <= t, t <= k), GHg(t) == z3.Store(GHg(t - 1), q_at(s, t - 1), False)))),
+                ("enumerates.members", z3.ForAll([p], z3.Implies(z3.And(0 <= p, p < c - k), z3.And(inr(nj), GHg(k)[nj], POSg(k, nj) == p)))),
+                ("enumerates.complete", z3.ForAll([j], z3.Implies(z3.And(inr(j), GHg(k)[j]),
+                                                                    z3.And(0 <= POSg(k, j), POSg(k, j) < c - k, to_int(nsc.sel(POSg(k, j))) == j)))),
+                ("ghost_in_range", z3.ForAll([t, j], z3.Implies(z3.And(0 <= t, t <= k, GHg(t)[j]), inr(j)))),
+                ("picks_valid", z3.ForAll([t], z3.Implies(z3.And(0 <= t, t < k), z3.And(inr(q_at(s, t)), GHg(t)[q_at(s, t)])))),
+                ("picks_stay_masked", z3.ForAll([t, t2], z3.Implies(z3.And(0 <= t, t < t2, t2 <= k), z3.Not(GHg(t2)[q_at(s, t)])))),
+                ("rows_nan", z3.ForAll([t2, j], z3.Implies(z3.And(0 <= t2, t2 < k, inr(j)), Un == z3.Not(GHg(t2)[j])))),
+                ("picks_maximal", z3.ForAll([t2, j], z3.Implies(z3.And(0 <= t2, t2 < k, inr(j), z3.Not(Un)), z3.And(z3.Not(qn), Uv <= qv)))),
+                ("later_rows_untouched", z3.ForAll([t2, j], z3.Implies(z3.And(k <= t2, t2 < bs, inr(j)), Un))),
+                ("masked_were_picked", z3.ForAll([t2, j], z3.Implies(z3.And(0 <= t2, t2 <= k, inr(j), z3.Not(GHg(t2)[j])),
+                                                                       z3.And(0 <= WITg(t2, j), WITg(t2, j) < t2, q_at(s, WITg(t2, j)) == j)))),
+            ]
+
+        def end_assume(E, head, end, k):
+            r = q_at(end, k)
+            p0 = to_int(end.get(end.env["idx"]).sel(z3.IntVal(0)))
+            end.assume(GHg(k + 1) == z3.Store(GHg(k), r, False))
+            end.assume(z3.ForAll([j], POSg(k + 1, j) == z3.If(POSg(k, j) < p0, POSg(k, j), POSg(k, j) - 1)))
+            end.assume(z3.ForAll([j], WITg(k + 1, j) == z3.If(j == r, k, WITg(k, j))))
+        ctx = {"c": c, "bs": bs, "q_at": q_at, "inr": inr}
+        ctx["loop_specs"] = {"loop0": LoopSpec(inv=inv, end_assume=end_assume)}
+        ctx["args"] = []
+        ctx["kwargs"] = {"X_cand": Xc, "X": X, "sample_indices": si, "selected_indices": sel, "candidate_indices": ci, "batch_size": bs,
+                         "random_state": rng, "method": "x", "metric_x": None, "metric_dict_x": None}
+        return ctx
+
+    def post(E, ctx, outs):
+        rets = returns(outs)
+        if not rets:
+            E.oblige("reaches.return", [], z3.BoolVal(False))
+        for o in raises(outs):
+            E.oblige("does_not_raise", o.state, z3.BoolVal(False), exc=str(o.value))
+        c, bs, inr = ctx["c"], ctx["bs"], ctx["inr"]
+        t, t2, j = z3.Ints("t t2 j")
+        for o in rets:
+            st = o.state
+            if not (isinstance(o.value, tuple) and len(o.value) == 2):
+                E.oblige("returns.pair", st, False)
+                continue
+            q, U = arr_of(o.value[0], st), arr_of(o.value[1], st)
+            ok = q is not None and U is not None and q.ndim == 1 and U.ndim == 2 and q.kind == "i"
+            E.oblige("C01.returns_integer_indices_and_utilities", st, z3.BoolVal(bool(ok)))
+            if not ok:
+                continue
+            qa = lambda tt: to_int(q.sel(tt))
+            E.oblige("C01.batch_size_indices", st, to_int(q.shape[0]) == bs)
+            E.oblige("C01.indices_are_candidate_positions", st, z3.ForAll([t], z3.Implies(z3.And(0 <= t, t < bs), inr(qa(t)))))
+            E.oblige("C01.indices_pairwise_distinct", st, z3.ForAll([t, t2], z3.Implies(z3.And(0 <= t, t < t2, t2 < bs), qa(t) != qa(t2))))
+            Un, Uv = to_real(U.sel(t2, j))
+            qn, qv = to_real(U.sel(t2, qa(t2)))
+            E.oblige("C02.utilities_shape", st, z3.And(to_int(U.shape[0]) == bs, to_int(U.shape[1]) == c))
+            E.oblige("C02.selectable_sets_shrink_by_the_pick", st, z3.And(z3.ForAll([j], GHg(0)[j] == inr(j)),
+                     z3.ForAll([t], z3.Implies(z3.And(0 <= t, t < bs), GHg(t + 1) == z3.Store(GHg(t), qa(t), False)))))
+            E.oblige("C02.row_t_is_NaN_exactly_at_the_earlier_picks", st, z3.ForAll([t2, j], z3.Implies(z3.And(0 <= t2, t2 < bs, inr(j)),
+                     Un == z3.Not(GHg(t2)[j]))))
+            E.oblige("C02.pick_t_is_maximal_in_row_t", st, z3.ForAll([t2, j], z3.Implies(z3.And(0 <= t2, t2 < bs, inr(j), z3.Not(Un)),
+                     z3.And(z3.Not(qn), Uv <= qv))))
+            E.oblige("C02.masked_positions_were_picked_in_an_earlier_step", st, z3.ForAll([t2, j], z3.Implies(
+                z3.And(0 <= t2, t2 <= bs, inr(j), z3.Not(GHg(t2)[j])), z3.And(0 <= WITg(t2, j), WITg(t2, j) < t2, qa(WITg(t2, j)) == j))))
+    return se_unit(f"pool_loops._greedy_sampling.{'no_labels_yet' if start_empty else 'some_labels'}", FG, "_greedy_sampling", None, setup, post,
+                   lib_factory=greedy_lib)
+
+
+UNITS["C01.C02._greedy_sampling.no_labels_yet"] = unit_greedy_sampling(True)
+UNITS["C01.C02._greedy_sampling.some_labels"] = unit_greedy_sampling(False)
+
+
+# ========================================================================================== GreedySamplingX.query / GreedySamplingTarget.query
+"""The two strategies built on _greedy_sampling, verified against its CONTRACT (units pool_loops._greedy_sampling.*), not its body:
+  G(X_cand with c rows, batch_size b):  requires 0 <= b <= c;  returns q (b pairwise distinct positions < c) and U (b x c) with row t NaN exactly
+  at q[0..t) and q[t] maximal among the non-NaN entries of row t.
+Ensures for query (C01 / C02, in the caller's index space: samples of X for None / index candidates, candidate rows otherwise):
+  the batch has the validated size, consists of pairwise distinct candidates; utilities[t, j] is NaN exactly for non-candidates and the
+  candidates picked in steps 0..t-1; the pick of step t is maximal among the non-NaN entries of row t.
+GreedySamplingTarget splits the batch into a feature-space phase (the first batch_size_x picks) and a target-space phase on the remaining
+candidates; the second phase's positions refer to the candidates left over and are translated back through `unselected_cands`."""
+GQ = z3.Function("G_pick", I, I, I)              # call number, step -> picked position
+GSEL = z3.Function("G_selectable", I, I, z3.ArraySort(I, B))   # call number, step -> positions selectable before that step
+GW = z3.Function("G_picked_at", I, I, I, I)     # call number, step t2, position masked before t2 -> the earlier step that picked it
+
+
+def greedy_callers_lib(ctx, mode):
+    L = loops_lib()
+
+    def validate_contract(E, st, recv, args, kw, node):
+        names = ["X", "y", "candidates", "batch_size", "return_utilities", "reset", "check_X_dict"]
+        a = dict(zip(names, args))
+        a.update(kw)
+        od = st.get(recv)
+        nf = dict(od.fields)
+        nf["missing_label_"] = nf.get("missing_label")
+        rng = st.alloc(RngData(fresh_fn("stream", I, R), fresh("pos", I), fresh("aux", I)))
+        nf["random_state_"] = rng
+        st.put(recv, ObjData(od.cls, nf))
+        bs2 = fresh("batch_size_validated", I)
+        st.assume(to_int(a["batch_size"]) >= 1, bs2 == z3.If(to_int(a["batch_size"]) <= ctx["c"], to_int(a["batch_size"]), ctx["c"]))
+        ctx["bs"] = bs2
+        return (a["X"], a["y"], a["candidates"], bs2, a["return_utilities"])
+
+    def transform_contract(E, st, recv, args, kw, node):
+        if mode == "rows":
+            return (args[0], None)
+        X = as_array(args[1], st)
+        mp = ctx["mapping"]
+        Xc = ArrData((mp.shape[0], X.shape[1]), lambda i, j: X.sel(to_int(mp.sel(i)), j), "o")
+        return (st.alloc(Xc), ctx["mapping_ref"])
+    for c_ in ("SingleAnnotatorPoolQueryStrategy", "PoolQueryStrategy", "GreedySamplingX", "GreedySamplingTarget"):
+        L.contracts[f"{c_}._validate_data"] = validate_contract
+        L.contracts[f"{c_}._transform_candidates"] = transform_contract
+
+    @L.fn("_greedy_sampling")
+    def _gs(E, st, args, kw, node):
+        kw = dict(zip(["X_cand", "X", "sample_indices", "selected_indices", "candidate_indices", "batch_size", "y_cand", "y", "random_state", "method"], args), **kw)
+        Xc = as_array(kw["X_cand"], st)
+        b = to_int(kw["batch_size"])
+        cc = to_int(Xc.shape[0])
+        k = len(ctx.setdefault("calls", []))
+        E.oblige(f"call{k}._greedy_sampling.requires.0<=batch_size<=len(X_cand)", st, z3.And(0 <= b, b <= cc), line=getattr(node, "lineno", 0))
+        t, t2, j = z3.Ints("g_t g_t2 g_j")
+        inr = lambda jj: z3.And(0 <= jj, jj < cc)
+        kk = z3.IntVal(k)
+        U = ArrData((b, cc), fresh_sel(f"G{k}_U", "f", 2), "f")
+        Un, Uv = to_real(U.sel(t2, j))
+        qn, qv = to_real(U.sel(t2, GQ(kk, t2)))
+        st.assume(z3.ForAll([j], GSEL(kk, 0)[j] == inr(j)))
+        st.assume(z3.ForAll([t], z3.Implies(z3.And(0 <= t, t < b), z3.And(inr(GQ(kk, t)), GSEL(kk, t)[GQ(kk, t)],
+                                                                           GSEL(kk, t + 1) == z3.Store(GSEL(kk, t), GQ(kk, t), False)))))
+        st.assume(z3.ForAll([t, t2], z3.Implies(z3.And(0 <= t, t < t2, t2 < b), GQ(kk, t) != GQ(kk, t2))))
+        st.assume(z3.ForAll([t, t2], z3.Implies(z3.And(0 <= t, t < t2, t2 <= b), z3.Not(GSEL(kk, t2)[GQ(kk, t)]))))
+        st.assume(z3.ForAll([t2, j], z3.Implies(z3.And(0 <= t2, t2 < b, inr(j)), Un == z3.Not(GSEL(kk, t2)[j]))))
+        st.assume(z3.ForAll([t2, j], z3.Implies(z3.And(0 <= t2, t2 < b, inr(j), z3.Not(Un)), z3.And(z3.Not(qn), Uv <= qv))))
+        st.assume(z3.ForAll([t2, j], z3.Implies(z3.And(0 <= t2, t2 <= b, inr(j), z3.Not(GSEL(kk, t2)[j])),
+                                                z3.And(0 <= GW(kk, t2, j), GW(kk, t2, j) < t2, GQ(kk, GW(kk, t2, j)) == j))))
+        q = ArrData((b,), lambda i, kk=kk: GQ(kk, i), "i")
+        ctx["calls"].append(dict(kw=dict(kw), b=b, c=cc, U=U, q=q))
+        return (st.alloc(q), st.alloc(U))
+
+    @L.fn("check_type", "check_scalar")
+    def _noop(E, st, args, kw, node):
+        return None
+
+    @L.fn("clone")
+    def _clone(E, st, args, kw, node):
+        return Opaque("clone")
+    return L
+
+
+def _greedy_world(ctx, st, mode):
+    N, d, c = z3.Int("N"), z3.Int("d"), z3.Int("c")
+    st.assume(N >= 1, d >= 1, c >= 0)
+    Xd = ArrData((N, d), fresh_sel("X", "o", 2), "o")
+    yd = ArrData((N,), fresh_sel("y", "o"), "o")
+    X, y = st.alloc(Xd), st.alloc(yd)
+    ctx.update(N=N, c=c, X=X, y=y, yd=yd)
+    if mode == "rows":
+        cand = st.alloc(ArrData((c, d), fresh_sel("candrows", "o", 2), "o"))
+    else:
+        mp = ArrData((c,), fresh_sel("mapping", "i"), "i")
+        t, u = z3.Ints("mp_t mp_u")
+        st.assume(z3.ForAll([t, u], z3.Implies(z3.And(0 <= t, t < u, u < c), to_int(mp.sel(t)) < to_int(mp.sel(u)))))
+        st.assume(z3.ForAll([t], z3.Implies(z3.And(0 <= t, t < c), z3.And(0 <= to_int(mp.sel(t)), to_int(mp.sel(t)) < N))))
+        mp.strictly_increasing = True
+        ctx["mapping"] = mp
+        ctx["mapping_ref"] = st.alloc(mp)
+        cand = ctx["mapping_ref"] if mode == "idx" else None
+    return X, y, cand
+
+
+def _greedy_post(E, ctx, outs, mode, wit):
+    """wit(t2, p) -> the step before t2 at which candidate position p was picked (composed from the witnesses of the callee contracts)"""
+    rets = returns(outs)
+    if not rets:
+        E.oblige("reaches.return", [], z3.BoolVal(False))
+    for o in raises(outs):
+        E.oblige("does_not_raise", o.state, z3.BoolVal(False), exc=str(o.value))
+    N, c = ctx["N"], ctx["c"]
+    t, t2, j, p = z3.Ints("t t2 j p")
+    for o in rets:
+        st = o.state
+        bs = ctx["bs"]
+        if not (isinstance(o.value, tuple) and len(o.value) == 2):
+            E.oblige("returns.pair", st, False)
+            continue
+        q, U = arr_of(o.value[0], st), arr_of(o.value[1], st)
+        ok = q is not None and U is not None and q.ndim == 1 and U.ndim == 2 and q.kind == "i"
+        E.oblige("C01.returns_integer_indices_and_utilities", st, z3.BoolVal(bool(ok)))
+        if not ok:
+            continue
+        qa = lambda tt: to_int(q.sel(tt))
+        if mode == "rows":
+            NC = c
+            is_cand = lambda jj: z3.And(0 <= jj, jj < c)
+            posof = lambda jj: jj
+        else:
+            NC = N
+            mp = ctx["mapping"]
+            from pyvc.lib import membership
+            is_cand, posof = membership(E, mp, st)
+        E.oblige("C01.batch_size_indices", st, to_int(q.shape[0]) == bs)
+        E.oblige("C01.indices_are_candidates", st, z3.ForAll([t], z3.Implies(z3.And(0 <= t, t < bs), z3.And(0 <= qa(t), qa(t) < NC, is_cand(qa(t))))))
+        E.oblige("C01.indices_pairwise_distinct", st, z3.ForAll([t, t2], z3.Implies(z3.And(0 <= t, t < t2, t2 < bs), qa(t) != qa(t2))))
+        Un, Uv = to_real(U.sel(t2, j))
+        qn, qv = to_real(U.sel(t2, qa(t2)))
+        inr = z3.And(0 <= t2, t2 < bs, 0 <= j, j < NC)
+        E.oblige("C02.utilities_shape", st, z3.And(to_int(U.shape[0]) == bs, to_int(U.shape[1]) == NC))
+        E.oblige("C02.non_candidates_are_NaN", st, z3.ForAll([t2, j], z3.Implies(z3.And(inr, z3.Not(is_cand(j))), Un)))
+        E.oblige("C02.earlier_picks_are_NaN", st, z3.ForAll([t, t2], z3.Implies(z3.And(0 <= t, t < t2, t2 < bs), to_real(U.sel(t2, qa(t)))[0])))
+        w = wit(t2, posof(j))
+        E.oblige("C02.a_NaN_candidate_was_picked_in_an_earlier_step", st, z3.ForAll([t2, j], z3.Implies(z3.And(inr, is_cand(j), Un),
+                 z3.And(0 <= w, w < t2, qa(w) == j))))
+        E.oblige("C02.pick_t_is_maximal_in_row_t", st, z3.ForAll([t2, j], z3.Implies(z3.And(inr, z3.Not(Un)), z3.And(z3.Not(qn), Uv <= qv))))
+
+
+def unit_greedy_x(mode):
+    ctx = {}
+
+    def setup(E, st):
+        ctx.clear()
+        X, y, cand = _greedy_world(ctx, st, mode)
+        selfo = st.alloc(ObjData("GreedySamplingX", {"metric": None, "metric_dict": None, "missing_label": Opaque("missing_label"),
+                                                     "random_state": Opaque("random_state")}))
+        bs = z3.Int("batch_size")
+        return {"args": [selfo, X, y], "kwargs": {"candidates": cand, "batch_size": bs, "return_utilities": True}}
+
+    def post(E, c_, outs):
+        _greedy_post(E, ctx, outs, mode, lambda t2, p: GW(0, t2, p))
+        E.oblige("one_call_of__greedy_sampling", [], z3.BoolVal(len(ctx.get("calls", [])) >= 1))
+    return se_unit(f"pool_loops.GreedySamplingX.query.{mode}", FG, "GreedySamplingX.query", "GreedySamplingX", setup, post,
+                   lib_factory=lambda: greedy_callers_lib(ctx, mode))
+
+
+for _m in ("none", "idx", "rows"):
+    UNITS[f"C01.C02.GreedySamplingX.query.{_m}"] = unit_greedy_x(_m)
